@@ -61,6 +61,9 @@ class Transaction:
         self._written_files: List[str] = []
         # GC-protection markers written for those files
         self._inflight_markers: List[str] = []
+        # Makes the marker names of PRE-BUILT files this transaction queues its
+        # own (see _marker_path_for)
+        self._marker_salt = uuid.uuid4().hex[:8]
 
         self._lock = threading.RLock()
 
@@ -106,8 +109,11 @@ class Transaction:
             # while this transaction is open deletes it (it may well be older
             # than the grace period) and the commit then references a missing
             # file. append_data() has already registered its own file.
-            if self._marker_path_for(data_file.file_path) not in self._inflight_markers:
-                self._register_inflight(data_file.file_path)
+            if (
+                self._marker_path_for(data_file.file_path) not in self._inflight_markers
+                and self._marker_path_for(data_file.file_path, prebuilt=True) not in self._inflight_markers
+            ):
+                self._register_inflight(data_file.file_path, prebuilt=True)
             if not self.file_manager.validate_file_exists(data_file.file_path):
                 raise FileNotFoundError(f"Data file does not exist: {data_file.file_path}")
             if table_schema is not None:
@@ -307,22 +313,29 @@ class Transaction:
 
         return self
 
-    def _marker_path_for(self, file_path: str) -> str:
-        """Marker path for a file: named after the file's basename.
+    def _marker_path_for(self, file_path: str, prebuilt: bool = False) -> str:
+        """Marker path for a file.
 
-        Files in a sub-directory (pre-built files queued with append_files, e.g.
-        data/region=eu/part-0.parquet and data/region=us/part-0.parquet) would
-        share one marker by basename alone, leaving all but one of them
-        unprotected; their marker name also carries a digest of the full path.
+        A file this transaction writes itself (data file, manifest, manifest
+        list: unique names directly in data/ or metadata/manifests/) is marked
+        by '<base name>.inflight'.
+
+        A PRE-BUILT file queued with append_files is not ours alone: another
+        file of the batch may share its base name in a different directory
+        (data/region=eu/part-0.parquet, data/region=us/part-0.parquet), and
+        another live transaction may queue the very same file. Its marker name
+        carries a digest of this transaction's salt and the full path, so every
+        (transaction, file) pair has a marker of its own: one transaction
+        rolling back removes its marker, not the other's protection.
         """
         rel = file_path.lstrip("/")
         parent, _, name = rel.rpartition("/")
-        if parent not in ("data", self.file_manager.manifests_path.strip("/")):
-            digest = hashlib.sha256(rel.encode("utf-8")).hexdigest()[:16]
+        if prebuilt or parent not in ("data", self.file_manager.manifests_path.strip("/")):
+            digest = hashlib.sha256(f"{self._marker_salt}:{rel}".encode("utf-8")).hexdigest()[:16]
             name = f"{digest}-{name}"
         return f"{_INFLIGHT_PATH}/{name}.inflight"
 
-    def _register_inflight(self, file_path: str) -> None:
+    def _register_inflight(self, file_path: str, prebuilt: bool = False) -> None:
         """Write a GC-protection marker for a file this transaction is about to
         write but that no snapshot references yet.
 
@@ -332,7 +345,7 @@ class Transaction:
         metadata commit that makes it reachable. Marker write failures
         propagate - a file is never written unprotected (fail closed).
         """
-        marker_path = self._marker_path_for(file_path)
+        marker_path = self._marker_path_for(file_path, prebuilt)
         marker_payload = json.dumps({"file_path": file_path.lstrip("/")}).encode("utf-8")
         self.file_manager.storage.write_file(marker_path, marker_payload)
         self._inflight_markers.append(marker_path)
